@@ -21,6 +21,14 @@ type Atom struct {
 	Op    string  `json:"op"`
 	Lit   float64 `json:"lit"`
 	Spell int     `json:"spell"` // spelling variant of the call
+	Col   string  `json:"col,omitempty"` // input column: "" = v; "V" and "u" are other columns (V differs from v only in case); count over a column counts its non-NULL values
+}
+
+func (a Atom) col() string {
+	if a.Col == "" {
+		return "v"
+	}
+	return a.Col
 }
 
 type Case struct {
@@ -44,6 +52,9 @@ func genCase(t *rapid.T) Case {
 	for i := 0; i < na; i++ {
 		a := Atom{Fn: rapid.SampledFrom(aggFns).Draw(t, "fn"), Spell: rapid.IntRange(0, 3).Draw(t, "spell")}
 		a.Op = rapid.SampledFrom(opsPool).Draw(t, "op")
+		if rapid.IntRange(0, 3).Draw(t, "othercol") == 0 {
+			a.Col = rapid.SampledFrom([]string{"V", "u"}).Draw(t, "col")
+		}
 		if a.Fn == "count" {
 			a.Lit = float64(rapid.IntRange(1, 4).Draw(t, "k"))
 			if a.Op == "<" || a.Op == "<=" {
@@ -112,6 +123,19 @@ func genCase(t *rapid.T) Case {
 				r["v"] = gen.Int(int64(rapid.IntRange(-5, 12).Draw(t, "v2")))
 			}
 		}
+		for _, a := range c.Atoms {
+			if a.Col == "" {
+				continue
+			}
+			if _, done := r[a.Col]; done {
+				continue
+			}
+			if rapid.IntRange(0, 7).Draw(t, "ck") == 0 && !(hasOr(c) && pbt.Open("C17", "or-with-null-agg")) {
+				r[a.Col] = gen.Nil()
+			} else {
+				r[a.Col] = gen.Int(int64(rapid.IntRange(-5, 12).Draw(t, "cv")))
+			}
+		}
 		tu := pool[rapid.IntRange(0, npool-1).Draw(t, "pick")]
 		for j, k := range c.Keys {
 			r[k] = tu[j]
@@ -122,8 +146,8 @@ func genCase(t *rapid.T) Case {
 }
 
 func (a Atom) call() string {
-	arg := "v"
-	if a.Fn == "count" {
+	arg := a.col()
+	if a.Fn == "count" && a.Col == "" {
 		arg = "*"
 	}
 	switch a.Spell {
@@ -170,15 +194,18 @@ func sqlOf(c Case) string {
 type aggState struct{ rows []gen.Row }
 
 // value returns (value, isNull)
-func (s *aggState) value(fn string) (float64, bool) {
-	if fn == "count" {
+func (s *aggState) value(fn, col string) (float64, bool) {
+	if fn == "count" && col == "*" {
 		return float64(len(s.rows)), false
 	}
 	var xs []float64
 	for _, r := range s.rows {
-		if f, ok := r["v"].Num(); ok {
+		if f, ok := r[col].Num(); ok {
 			xs = append(xs, f)
 		}
+	}
+	if fn == "count" {
+		return float64(len(xs)), false
 	}
 	if len(xs) == 0 {
 		return 0, true
@@ -207,13 +234,13 @@ func (s *aggState) value(fn string) (float64, bool) {
 // orderSensitive reports whether the verdict of "sum/avg(v) op lit" over these rows depends on the order of the
 // floating-point additions (arrival, ascending, descending or exact): the property does not fix one, so such a
 // comparison has no defined truth value and the case gives no verdict.
-func (s *aggState) orderSensitive(fn, op string, lit float64) bool {
+func (s *aggState) orderSensitive(fn, col, op string, lit float64) bool {
 	if fn != "sum" && fn != "avg" {
 		return false
 	}
 	var xs []float64
 	for _, r := range s.rows {
-		if f, ok := r["v"].Num(); ok {
+		if f, ok := r[col].Num(); ok {
 			xs = append(xs, f)
 		}
 	}
@@ -272,7 +299,11 @@ func evalPred(c Case, s *aggState) (bool, bool) {
 	vals := make([]bool, len(c.Atoms))
 	nullAtom := false
 	for i, a := range c.Atoms {
-		v, null := s.value(a.Fn)
+		col := a.col()
+		if a.Fn == "count" && a.Col == "" {
+			col = "*"
+		}
+		v, null := s.value(a.Fn, col)
 		if null {
 			nullAtom = true
 			vals[i] = false
@@ -338,7 +369,7 @@ func runCase(c Case) (res pbt.Result) {
 		}
 		s.rows = append(s.rows, r)
 		for _, a := range c.Atoms {
-			if s.orderSensitive(a.Fn, a.Op, a.Lit) {
+			if s.orderSensitive(a.Fn, a.col(), a.Op, a.Lit) {
 				res.Class("no-verdict:float-order")
 				return
 			}
@@ -390,7 +421,11 @@ func runCase(c Case) (res pbt.Result) {
 		}
 		st := &aggState{rows: want[i].rows}
 		for _, f := range c.Selected {
-			w, null := st.value(f)
+			scol := "v"
+			if f == "count" {
+				scol = "*"
+			}
+			w, null := st.value(f, scol)
 			g := got[i]["a_"+f]
 			gf, gok := gen.ToFloat(g)
 			if null {
@@ -431,7 +466,7 @@ func runCase(c Case) (res pbt.Result) {
 	}
 	hasOr := false
 	for _, a := range c.Atoms {
-		if !sel[a.Fn] {
+		if !sel[a.Fn] || a.Col != "" {
 			unselected = true
 		}
 	}
@@ -481,7 +516,13 @@ func features(c Case) []string {
 	var f []string
 	if hasOr(c) {
 		for _, r := range c.Rows {
-			if r["v"].IsNull() {
+			null := r["v"].IsNull()
+			for _, a := range c.Atoms {
+				if a.Col != "" && r[a.Col].IsNull() {
+					null = true
+				}
+			}
+			if null {
 				f = append(f, "or-with-null-agg")
 				break
 			}
@@ -498,7 +539,7 @@ func features(c Case) []string {
 
 var spec = pbt.Spec[Case]{
 	ID:   "C17",
-	Rule: "generated: GLOBAL WINDOW TRIGGER WHEN predicates of 1-3 comparisons of count(*)/sum/avg/min/max with literals joined by AND/OR (varied spelling), a random subset of those aggregates in the SELECT list (so predicates reference selected and unselected aggregates), 0-2 group columns over separator-bearing strings/ints/NULL, 1-40 rows with NULL/missing inputs. oracle: per-group running model - after each row evaluate the predicate on the rows since the group last fired (NULL aggregate => comparison not true), fire exactly there with aggregates over precisely those rows and the group columns, reset; results in firing order. non-trivial = >=2 groups, a predicate over an unselected aggregate or with OR, and a group firing twice; distinct by case hash",
+	Rule: "generated: GLOBAL WINDOW TRIGGER WHEN predicates of 1-3 comparisons of count(*)/count/sum/avg/min/max over v or, one time in four, over another column (V, which differs from v only in case, or u) with literals joined by AND/OR (varied spelling), a random subset of those aggregates in the SELECT list (so predicates reference selected and unselected aggregates), 0-2 group columns over separator-bearing strings/ints/NULL, 1-40 rows with NULL/missing inputs. oracle: per-group running model - after each row evaluate the predicate on the rows since the group last fired (NULL aggregate => comparison not true), fire exactly there with aggregates over precisely those rows and the group columns, reset; results in firing order. non-trivial = >=2 groups, a predicate over an unselected aggregate or with OR, and a group firing twice; distinct by case hash",
 	Assumptions: []string{"input never dropped (block strategy)", "the window goroutine is sequential, so result order = firing order", "AND binds tighter than OR"},
 	Gen:      genCase,
 	Run:      runCase,
